@@ -43,6 +43,10 @@ CLAIMS = {
   "Boolean simplification (tryOptimizeAndOr) is proved value-preserving wherever the original evaluates, for every pair, against the documented short-circuit meaning of & and |; constant folding of a binary node (tryOptimizeBinaryOpExecute) is proved to produce a literal carrying exactly the evaluated value with the same kind (integer / float / text / Boolean).",
   TRUST + "Operator meaning and result kinds are documentation axioms / an assumed contract on BinaryOpExpr.Execute. Re-association (tryReorderBinaryOp), folding of constant function calls and the whole-tree composition are NOT covered: in-place mutation of a tree needs an ownership argument the contract language cannot carry.",
   "DESIGN.md section 0.3 / 5, C04"),
+ "C07": ("proof",
+  "Order plan: comparators return the sign of the documented order (numeric, byte-wise, false<true, negated for DESC); Less is exactly the lexicographic order over the ORDER BY keys; the heap adapter is exact; every child row is pushed exactly once and popped exactly once (ghost heap size), Next/Batch stop exactly at the end; a lone `order by key asc` is the only elision.",
+  TRUST + "Sortedness and permutation of the output additionally rest on T-STD for container/heap (Pop returns a minimum by Less). Mixed-kind columns compare as unordered. The elision relies on C01's scan order.",
+  "DESIGN.md section 5, C07"),
 }
 
 NA_PENDING = "not yet claimed in this session: the contracts for this property are still being written (see DESIGN.md section 5 for the plan)"
